@@ -23,6 +23,7 @@
 #include <assert.h>
 #include <ctype.h>
 #include <errno.h>
+#include <limits.h>
 #include <stdarg.h>
 #include <stdbool.h>
 #include <stdlib.h>
@@ -293,8 +294,14 @@ static int is_in_word_char(int ch)
 static bool convert_int(ts_parser_state_t *tpsp)
 {
     char *end;
+    long temp;
 
-    tpsp->u.tps_int = strtol(tpsp->tps_text, &end, 0);
+    errno = 0;
+    temp = strtol(tpsp->tps_text, &end, 0);
+    if (errno == ERANGE || temp < INT_MIN || temp > INT_MAX) {
+	return false;		/* does not fit an int: not an integer token */
+    }
+    tpsp->u.tps_int = (int)temp;
     return end > tpsp->tps_text && *end == '\000';
 }
 
